@@ -333,8 +333,10 @@ class SymEval:
                 kws, kchanged = [], False
                 for k in n.keywords:
                     v = k.value
-                    if k.arg is None and isinstance(v, ast.Dict) and v.keys and all(isinstance(x, ast.Constant) and isinstance(x.value, str) for x in v.keys):
-                        kws.extend(ast.keyword(arg=x.value, value=y) for x, y in zip(v.keys, v.values))
+                    if k.arg is None and isinstance(v, ast.Dict) and v.keys and all(
+                            x is None or (isinstance(x, ast.Constant) and isinstance(x.value, str)) for x in v.keys):
+                        # (f(**{**m, 'a': 1})  ==  f(**m, a=1))
+                        kws.extend(ast.keyword(arg=(x.value if x is not None else None), value=y) for x, y in zip(v.keys, v.values))
                         kchanged = True
                     elif k.arg is None and isinstance(v, ast.Call) and isinstance(v.func, ast.Name) and v.func.id == 'dict' and not v.args \
                             and all(kk.arg for kk in v.keywords):
@@ -567,6 +569,13 @@ class SymEval:
             h = self._helper(fn, node) if depth < self.depth else None
             if h is not None and h[0].is_coro and not awaited:
                 h = None        # a coroutine function called but not awaited: its body does not run here
+            if h is not None and (h[0].node.args.vararg or h[0].node.args.kwarg):
+                # f(func, /, *args, **kwargs): the surplus positional arguments become the tuple, the surplus keywords the dict;
+                # an unpacked argument in front of the named parameters cannot be mapped - the call is left opaque
+                n_named_ = min(len(h[0].params()[h[1]:]), len(node.args))
+                if any(isinstance(a, ast.Starred) for a in node.args[:n_named_]) or \
+                        (len(node.args) > n_named_ and not h[0].node.args.vararg):
+                    h = None
             if h is not None:
                 callee, off = h
                 params = callee.params()[off:]
@@ -588,6 +597,22 @@ class SymEval:
                         else:
                             nxt.append((q, dict(bnd, **{p_: self.val(q, a)})))
                     argstates = nxt
+                ca_ = callee.node.args
+                if ca_.vararg or ca_.kwarg:
+                    named_ = set(params) | {x.arg for x in ca_.kwonlyargs}
+                    argstates2 = []
+                    for r_, bind_ in argstates:
+                        bind_ = dict(bind_)
+                        if ca_.vararg:
+                            bind_[ca_.vararg.arg] = ast.Tuple(elts=[
+                                ast.Starred(value=self.val(r_, a.value), ctx=ast.Load()) if isinstance(a, ast.Starred) else self.val(r_, a)
+                                for a in node.args[len(params):]], ctx=ast.Load())
+                        if ca_.kwarg:
+                            extra_ = [k for k in node.keywords if k.arg is None or k.arg not in named_]
+                            bind_[ca_.kwarg.arg] = ast.Dict(keys=[ast.Constant(value=k.arg) if k.arg else None for k in extra_],
+                                                            values=[self.val(r_, k.value) for k in extra_])
+                        argstates2.append((r_, bind_))
+                    argstates = argstates2
                 for r_, bind_ in argstates:
                     yield from self._splice(r_, bind_, callee, fn, loop, depth)
                 return
